@@ -268,7 +268,7 @@ def check_wire(ctx, case):
 
 
 def part_wire(ctx):
-    n = 80 if ctx.tier == "quick" else 2500
+    n = 200 if ctx.tier == "quick" else 2500
     hyp_run(ctx, WIRE, lambda c: check_wire(ctx, c), n, name="wire")
 
 
